@@ -274,9 +274,14 @@ func (c *zzC11Case) zzC11Ops() []zzC11Op {
 
 // zzC11History picks an order of the forms that respects "components before
 // users" and "flavor before its methods". ord < 0: every order (vrt.Choice);
-// even ord: a pseudo-random order derived from ord and VERIF_SEED; odd ord:
-// the same, restricted to orders outside the insertMethod finding regions.
+// ord >= 0: four pseudo-random orders (numbers 4*ord .. 4*ord+3, mixed with
+// VERIF_SEED); the odd ones are drawn among the orders outside the
+// insertMethod finding regions.
 func (c *zzC11Case) zzC11History(ord int) []zzC11Op {
+	if 0 <= ord {
+		// four sampled orders per case (two unrestricted, two restricted)
+		ord = ord*4 + vrt.Choice("smp", 4)
+	}
 	if ord < 0 || ord%2 == 0 {
 		return c.zzC11Order(ord)
 	}
